@@ -74,3 +74,9 @@ Definition expected_limit_offset : string := "if self.limit is not None: |     s
 Definition expected_result_fields : list string := ["departure=pd.Timestamp.utcfromtimestamp(row[0])"%string; "arrival=pd.Timestamp.utcfromtimestamp(row[1])"%string; "carrier=row[4]"%string; "flight_number=row[5]"%string; "origin=row[6]"%string; "origin_country=row[7]"%string; "destination=row[8]"%string; "destination_country=row[9]"%string; "service_type=row[10]"%string; "aircraft_type=row[11]"%string; "engine_type=row[12]"%string; "distance=row[13]"%string; "seat_capacity=row[14]"%string; "flight_id=row[3]"%string; "id=row[2]"%string].
 Definition expected_count : list string := ["self._common_conditions()"%string; "sql = 'SELECT COUNT(s.id) FROM schedules s'"%string; "if len(self._conditions) > 0: |     sql += f' JOIN flights f ON f.id = s.flight_id JOIN airports ao ON f.origin = ao.id JOIN airports ad ON f.destination = ad.id{self._where_clause()}'"%string; "return (sql, self._params)"%string; "lambda _, gen: next(gen)[0]"%string].
 Definition expected_frequent : list string := ["self.limit < 1"%string; "WITH counts AS (SELECT COUNT(s.id) AS nflights, f.od_pair AS od_pair FROM schedules s JOIN flights f ON s.flight_id = f.id{self._where_clause()} GROUP BY od_pair) SELECT substring(od_pair, 1, 3) AS airport1, substring(od_pair, 4) AS airport2, nflights FROM counts ORDER BY nflights DESC LIMIT {self.limit}"%string; "return cls(airport1=row[0], airport2=row[1], number_of_flights=row[2])"%string].
+
+(* Database.__call__: the SQL is built once per call and run on a cursor of its own, so result generators of
+   different queries do not share cursor state; the object keeps only the connection and its finalizer *)
+Definition expected_database_call : list string := ["sql, params = query.to_sql()"%string; "cur = self._conn.cursor()"%string; "if query.PROCESS_RESULT is not None: |     return query.PROCESS_RESULT(cur.execute(sql, params)) | else: |     return self._yield_results(cur, sql, params, query.RESULT_TYPE)"%string].
+Definition expected_yield_results : list string := ["for row in cur.execute(sql, params): |     yield result_type.from_row(row)"%string].
+Definition expected_database_state : list string := ["_conn"%string; "_finalizer"%string].
